@@ -164,7 +164,7 @@ func compileOnce(sc *C07Scenario, in io.Reader, dir string) (dump.DB, error) {
 
 func runC07(t *testing.T, sc C07Scenario, keep bool) *core.Result {
 	res := &core.Result{Population: "fault-free"}
-	lines := gen.RandomFile(sc.FileSeed, gen.FileOpts{Records: sc.Records, Nets: sc.Nets, BadLine: sc.BadLine, Tag: int(sc.FileSeed % 200)})
+	lines := gen.RandomFile(sc.FileSeed, gen.FileOpts{Records: sc.Records, Nets: sc.Nets, BadLine: sc.BadLine, Tag: int(sc.FileSeed % 200), Stray: sc.FileSeed%3 == 0})
 	text := strings.Join(lines, "\n")
 	if !sc.NoFinalNL {
 		text += "\n"
